@@ -486,7 +486,7 @@ class BytesIO(IOBase):
             if self._conn is None:
                 raise SilentError('disconnected') from None
             if repr(e) != self._last_error:
-                self._last_error = str(e)
+                self._last_error = repr(e)
                 self.log.error(self._last_error)
             raise SilentError(repr(e)) from e
 
